@@ -140,6 +140,7 @@ type ConnRec struct {
 	Req       []byte // every plaintext byte the client sent after the handshake
 	ReqDone   bool   // blank line seen
 	Target    string
+	garbageKind int
 	Plaintext []byte // bytes of a client that did not speak TLS
 	Served    *Response
 	ServedLen int
@@ -226,6 +227,9 @@ func (w *World) Dial(info *simnet.DialInfo) (simnet.DialOutcome, func(*simnet.En
 		w.r.S.Fault("dial_blackhole")
 		return simnet.DialBlackhole, nil
 	}
+	if cr.Fault.Kind == FHandshakeGarbage {
+		cr.garbageKind = w.r.S.Sched.Draw(8) // drawn here, in the driver
+	}
 	if w.Chunking {
 		n := w.r.S.Sched.Weighted(5, 2, 1)
 		for i := 0; i < n; i++ {
@@ -255,6 +259,12 @@ func (w *World) serve(h *Host, cr *ConnRec, ep *simnet.Endpoint) {
 		return
 	case FHandshakeGarbage:
 		s.Fault("handshake_garbage")
+		// what a confused or hostile peer may answer a ClientHello with: an alert record followed by
+		// a web page, an SSLv2-style header, an oversized record, a record of a version from another
+		// age, plain HTTP, nothing but zeros
+		garbage := [][]byte{garbage, []byte("\x80\x2e\x01\x00\x02 SSLv2 hello of some kind ......................"), []byte("\x16\x03\x03\xff\xff" + strings.Repeat("A", 64)),
+			[]byte("\x16\x02\x00\x00\x10" + strings.Repeat("B", 16)), []byte("HTTP/1.1 400 Bad Request\r\nContent-Type: text/plain\r\n\r\nThe plain HTTP request was sent to HTTPS port\n"),
+			make([]byte, 40), []byte("\x17\x03\x03\x00\x05hello"), []byte("\x15\x03\x03\x00\x02\x02\x46")}[cr.garbageKind%8]
 		var tmp [64]byte
 		ep.Read(tmp[:])
 		ep.Write(garbage)
